@@ -131,8 +131,11 @@ func runC15(e *Engine, r *Report) {
 	r.check(okConst && nw >= 1, "CONST-validate", "Chunk.validate is only ever set to true", "-", "validation cannot be switched off outside tests", "Chunk.validate can be false in the non-test program: corrupted streams would be finalized")
 	// ---- finalize only after the final validation; notification only after finalize
 	if validatorVal != nil {
-		for _, s := range e.SitesIn(addLocked, finalize) {
-			r.guard("GD-chunk-finalize", "finalize in "+fname(addLocked), s.(ssa.Instruction),
+		for _, s := range e.CallerSites(finalize) {
+			if !e.IsLive(outermostFn(s.Parent())) {
+				continue
+			}
+			r.guard("GD-chunk-finalize", "finalize in "+fname(s.Parent()), s.(ssa.Instruction),
 				reqAny("validator.Validate() is true (validate is constant true)", reqBool("", e.callV(validatorVal), true), reqBool("", fieldV(validateF), false)),
 				reqBool("last chunk", func(v ssa.Value) bool {
 					c, ok := v.(*ssa.Call)
@@ -143,32 +146,31 @@ func runC15(e *Engine, r *Report) {
 	onReceive := e.Field("internal/transport", "Chunk", "onReceive")
 	confirm := e.Field("internal/transport", "Chunk", "confirm")
 	n = 0
-	forEachCall(addLocked, func(s ssa.CallInstruction) {
-		if !fieldV(onReceive)(s.Common().Value) && !fieldV(confirm)(s.Common().Value) {
-			return
-		}
-		n++
-		o, _ := e.alwaysPrecededBy(s.(ssa.Instruction), func(in ssa.Instruction) bool { c, ok := in.(*ssa.Call); return ok && e.CallsTo(c, finalize) }, 0)
-		r.check(o && notFromErrEdge(e, addLocked, finalize, s), "MPT-notify-after-finalize", "snapshot notification #"+itoa(n)+" after a successful finalize", e.ipos(s),
-			"InstallSnapshot is delivered only for a finalized snapshot directory", "the snapshot notification can be delivered without a successful finalize")
-	})
-	r.floor("MPT-notify-after-finalize", n, 2)
-	// the callbacks have no other call site
+	// wherever the callbacks are invoked in the package: only after a
+	// successful finalize (in the same function or in every caller)
+	lastChunkFns := map[*ssa.Function]bool{}
+	for _, s := range e.CallerSites(finalize) {
+		lastChunkFns[s.Parent()] = true
+	}
 	for _, fn := range e.ScopeFuncs() {
-		if fnPkg(fn) != e.pkgTypes("internal/transport") || fn == addLocked || !e.IsLive(fn) {
+		if fnPkg(fn) != e.pkgTypes("internal/transport") || !e.IsLive(outermostFn(fn)) {
 			continue
 		}
 		forEachCall(fn, func(s ssa.CallInstruction) {
-			if fieldV(onReceive)(s.Common().Value) {
-				r.bad("MPT-notify-after-finalize", "onReceive invoked in "+fname(fn), e.ipos(s), "the received-snapshot callback is invoked outside addLocked")
+			if !fieldV(onReceive)(s.Common().Value) && !fieldV(confirm)(s.Common().Value) {
+				return
 			}
+			n++
+			r.check(e.afterSuccessOf(s.(ssa.Instruction), finalize, 2), "MPT-notify-after-finalize", "snapshot notification #"+itoa(n)+" in "+fname(fn)+" after a successful finalize", e.ipos(s),
+				"InstallSnapshot is delivered only for a finalized snapshot directory", "the snapshot notification can be delivered without a successful finalize")
 		})
 	}
+	r.floor("MPT-notify-after-finalize", n, 2)
 	// ---- dropping a stream removes its temp dir
 	n = 0
 	for _, s := range e.CallerSites(reset) {
 		fn := s.Parent()
-		if fn == addLocked {
+		if lastChunkFns[fn] {
 			continue // the directory was renamed by finalize or removed on the failing branches (checked below)
 		}
 		n++
@@ -178,29 +180,32 @@ func runC15(e *Engine, r *Report) {
 	}
 	r.floor("PAIR-chunk-tempdir", n, 2)
 	// addLocked: every `return false` after the chunk was tracked and saved/validated on the last chunk removes the temp dir
-	forEachInstr(addLocked, func(in ssa.Instruction) {
-		ret, ok := in.(*ssa.Return)
-		if !ok {
-			return
-		}
-		if cb, isC := isConstBool(retOperand(ret, 0)); !isC || cb {
-			return
-		}
-		// only for the invalid-stream / failed-finalize exits (after Validate or finalize)
-		after := false
-		if validatorVal != nil {
-			for _, s := range e.SitesIn(addLocked, validatorVal) {
-				if dominatesInstr(s.(ssa.Instruction), in) {
-					after = true
+	for lcf := range lastChunkFns {
+		lcf := lcf
+		forEachInstr(lcf, func(in ssa.Instruction) {
+			ret, ok := in.(*ssa.Return)
+			if !ok {
+				return
+			}
+			if cb, isC := isConstBool(retOperand(ret, 0)); !isC || cb {
+				return
+			}
+			// only for the invalid-stream / failed-finalize exits (after Validate or finalize)
+			after := false
+			if validatorVal != nil {
+				for _, s := range e.SitesIn(lcf, validatorVal) {
+					if dominatesInstr(s.(ssa.Instruction), in) {
+						after = true
+					}
 				}
 			}
-		}
-		if !after {
-			return
-		}
-		o, _ := e.alwaysPrecededBy(in, func(x ssa.Instruction) bool { c, ok := x.(*ssa.Call); return ok && e.CallsTo(c, rmTemp) }, 0)
-		r.check(o, "PAIR-chunk-tempdir", "rejecting exit after the last chunk removes the temp dir", e.ipos(in), "an invalid or out-of-date stream is cleaned up", "a stream rejected at its last chunk leaves its temporary directory")
-	})
+			if !after {
+				return
+			}
+			o, _ := e.alwaysPrecededBy(in, func(x ssa.Instruction) bool { c, ok := x.(*ssa.Call); return ok && e.CallsTo(c, rmTemp) }, 0)
+			r.check(o, "PAIR-chunk-tempdir", "rejecting exit after the last chunk removes the temp dir", e.ipos(in), "an invalid or out-of-date stream is cleaned up", "a stream rejected at its last chunk leaves its temporary directory")
+		})
+	}
 	// restart by a new first chunk: the old temp dir is removed before the record is replaced
 	for _, w := range e.FieldWrites(trackedF) {
 		if w.Fn != record || w.Kind != "mapupdate" {
